@@ -37,7 +37,7 @@ func init() { registry["C03"] = c03{} }
 
 func (c03) Count(tier string) int {
 	if tier == "thorough" {
-		return 12000
+		return 30000
 	}
 	return 900
 }
